@@ -91,6 +91,15 @@ func symSprintf(fr *frame, format string, args []value) value {
 		}
 		a := args[ai]
 		ai++
+		if it, ok := a.(iface); ok {
+			if _, isStr := it.v.(symstr); !isStr && hasSymDeep(it.v, 5) {
+				// a value with symbolic scalars (a Number, a range, an integer) inside a message:
+				// rendered as an opaque placeholder instead of forking over its decimal digits.
+				// Message text with symbolic numbers is not the subject of any check.
+				out = append(out, strBytes("<sym>")...)
+				continue
+			}
+		}
 		if it, ok := a.(iface); ok && (verb == "%s" || verb == "%v") {
 			inner := it.v
 			if it.t != nil {
@@ -133,4 +142,41 @@ func init() {
 		return call(fr.i, fr, token.NoPos, newFn, []value{s})
 	}
 	_ = types.Typ
+}
+
+// hasSymDeep reports whether v contains a symbolic scalar or string, looking through
+// structs, slices, arrays, interfaces and pointers up to the given depth.
+func hasSymDeep(v value, depth int) bool {
+	if depth < 0 {
+		return false
+	}
+	switch v := v.(type) {
+	case symv, symstr, symm:
+		return true
+	case structure:
+		for _, x := range v {
+			if hasSymDeep(x, depth-1) {
+				return true
+			}
+		}
+	case array:
+		for _, x := range v {
+			if hasSymDeep(x, depth-1) {
+				return true
+			}
+		}
+	case []value:
+		for _, x := range v {
+			if hasSymDeep(x, depth-1) {
+				return true
+			}
+		}
+	case iface:
+		return hasSymDeep(v.v, depth-1)
+	case *value:
+		if v != nil {
+			return hasSymDeep(*v, depth-1)
+		}
+	}
+	return false
 }
